@@ -20,7 +20,7 @@ def disc(sc: dict, tr: dict, clause: str, pos: int) -> str:
     return 'plain'
 
 
-def run_family(ctx: Ctx, own: str, focus: str, n_quick: int, n_thorough: int, extra: List[dict] = ()) -> None:  # type: ignore[assignment]
+def run_family(ctx: Ctx, own: str, focus: str, n_quick: int, n_thorough: int, extra: List[dict] = ()) -> Any:  # type: ignore[assignment]
     rng = random.Random(ctx.seed * 7919 + int(own[1:]))
     n = ctx.pick(n_quick, n_thorough)
     scenarios = [rf.gen_resp(rng, '%s-%d' % (own.lower(), k), focus, ctx.thorough) for k in range(n)] + list(extra)
@@ -76,3 +76,42 @@ def run_family(ctx: Ctx, own: str, focus: str, n_quick: int, n_thorough: int, ex
     ctx.assumptions += ['virtual-time simulator; own multicasts looped back as a later callback at the same instant',
                         'records interned by the independent wire parser; registry reconstructed from API calls',
                         'API calls on a service only after its previous announcement/goodbye sequence has finished']
+    return scenarios, traces
+
+
+def suppressed_sightings(tr: dict, upto: int) -> List[dict]:
+    """Response datagrams delivered to the host that its duplicate guard dropped (byte-identical to the previous datagram it
+    processed less than a second earlier, which had no QU question): what they carried never reached the cache."""
+    out = []
+    last_did, last_proc, last_qu = 0, -100000, False
+    for e in tr['events'][:upto]:
+        if e['ev'] != 'recv' or e.get('len', 0) > 8966:
+            continue
+        if e.get('bad'):
+            last_did, last_proc, last_qu = e['did'], e['t'], False
+            continue
+        if e['did'] == last_did and e['t'] - 1000 < last_proc and not last_qu:
+            if e.get('resp'):
+                out.append(e)
+            continue
+        last_did, last_proc, last_qu = e['did'], e['t'], any(q[2] == 1 for q in e.get('qs', []))
+    return out
+
+
+def strict_sighting_pass(ctx: Ctx, scenarios: List[dict], traces: List[dict]) -> None:
+    """Second pass over the same executions for the clause C12_OneSecondAfterAnySighting (strict reading of the one-second
+    rule, see DESIGN.md 0.5 D17); kept apart so that it cannot hide a later failure of the other C12 clauses."""
+    verdicts, states, trans = trace_run.validate('Trace_Responder', traces, {'own': 'C12S'}, batch=250, par=4 if ctx.thorough else 3)
+
+    def disc2(sc: dict, tr: dict, clause: str, pos: int) -> str:
+        evs = tr['events']
+        if clause != 'C12_OneSecondAfterAnySighting' or not 0 < pos <= len(evs):
+            return 'plain'
+        e = evs[pos - 1]
+        sent = {a[0] for a in e.get('an', [])}
+        for d in suppressed_sightings(tr, pos):
+            if e['t'] - 2300 <= d['t'] <= e['t'] and sent & {a[0] for a in d.get('an', []) + d.get('ar', []) if a[1] > 0}:
+                return 'sighting-dropped-by-duplicate-guard'
+        return 'plain'
+    res = trace_run.triage(ctx, 'C12', scenarios, traces, verdicts, disc2)
+    ctx.coverage['strict_sighting_pass'] = {'traces': len(traces), 'states': states, 'rejected': res.get('rejected', None)}
